@@ -143,8 +143,16 @@ class Oracle:
             self.hit("expire_present")
             return None if reply == "ok" else "expire via %s/m%s: %s" % (a[0], a[1], reply)
         if name == "c.pipeline":
-            outs = reply.split("|")
+            reply, _, life = reply.partition(" life=")
             cmds = a[3:]
+            # life cycle: a future before Exec, a second Exec, Discard, a future of the discarded generation, Exec of the
+            # empty re-usable pipeline, then Exec and Discard of the closed one (Props/C15: C15_pipeline_lifecycle)
+            want = "notReady,executed,none,closed,none,closed,closed" if cmds else "-,executed,none,-,none,closed,closed"
+            if not reply.startswith("exec:"):
+                if life != want:
+                    return "pipeline life cycle answered %s, expected %s" % (life, want)
+                self.hit("pipeline_lifecycle")
+            outs = reply.split("|")
             if reply.startswith("exec:") or len(outs) != len(cmds):
                 return "pipeline of %d commands answered %s" % (len(cmds), reply[:120])
             self.hit("pipeline_multi")
@@ -549,5 +557,5 @@ class Gen:
                 yield self.tick()
 
 
-REQUIRED_SHAPES = ["raw_scan_checked", "iterator_checked", "iterator_match", "iterator_count_1", "custom_dmap_ttl", "pipeline_multi", "pipeline_two_getputs", "incr_decr", "getput", "lock_acquired", "lock_contended", "wrong_token", "mirror_checked", "put_cond_and_ttl", "expire_present", "multi_key_delete", "read_after_expiry",
+REQUIRED_SHAPES = ["raw_scan_checked", "iterator_checked", "iterator_match", "iterator_count_1", "custom_dmap_ttl", "pipeline_multi", "pipeline_two_getputs", "pipeline_lifecycle", "incr_decr", "getput", "lock_acquired", "lock_contended", "wrong_token", "mirror_checked", "put_cond_and_ttl", "expire_present", "multi_key_delete", "read_after_expiry",
                    "read_from_non_owner"]
